@@ -58,7 +58,7 @@ PROPS['C09'] = dict(
 )
 PROPS['C10'] = dict(
     props_file='Props/C10.v',
-    kernels=['membership_public', 'memberships_in_common', 'grant_access_to_membership', 'grant_access_to_membership_id'],
+    kernels=['membership_public', 'memberships_in_common', 'grant_access_to_membership', 'grant_access_to_membership_id', 'dispatcher_valid_vehicle', 'dispatcher_valid_request'],
     step_runs={Q: GEN + [('fleets', 100, 40)], T: [('generic', 1500, 40), ('fleets', 1500, 60)]},
     known_keys={'interaction_without_access': ['activity', 'target_kind']},
 )
@@ -68,7 +68,7 @@ PROPS['C15'] = dict(
     known_keys={},
 )
 PROPS['C17'] = dict(
-    props_file='Props/C17.v', kernels=['req_assign_dispatched_vehicle', 'req_unassign_dispatched_vehicle'],
+    props_file='Props/C17.v', kernels=['req_assign_dispatched_vehicle', 'req_unassign_dispatched_vehicle', 'dispatcher_valid_request'],
     step_runs={Q: GEN + [('requests', 80, 40)], T: [('generic', 1500, 40), ('requests', 1500, 60)]},
     known_keys={'stale_dispatched_vehicle': ['activity']},
 )
@@ -78,7 +78,7 @@ PROPS['C18'] = dict(
     known_keys={'overtaken_in_queue_unusable_plug': ['can_use']},
 )
 PROPS['C20'] = dict(
-    props_file='Props/C20.v', kernels=['time_in_range'],
+    props_file='Props/C20.v', kernels=['time_in_range', 'dispatcher_valid_vehicle'],
     step_runs={Q: GEN, T: [('generic', 1500, 40)]},
     known_keys={},
 )
@@ -109,7 +109,7 @@ PROPS['C06'] = dict(
 
 import eng_c12
 PROPS['C12'] = dict(
-    props_file='Props/C12.v', kernels=[],
+    props_file='Props/C12.v', kernels=['dispatcher_valid_vehicle', 'dispatcher_valid_request', 'grant_access_to_membership_id', 'bev_range_remaining_km', 'ice_range_remaining_km'],
     engines=[eng_c12.engine], extended=[eng_c12.engine], replayers=[eng_c12.replayer],
     rule='eng_c12: seeded simulation states (0-7 vehicles in mixed activities / charge levels / shifts / fleets, 0-7 requests some already assigned, co-located entities for ties, three dispatcher configurations) given to the real Dispatcher; non-trivial = at least 2 vehicles and 2 requests',
     trusted_base=['scipy.optimize.linear_sum_assignment (oracle; its answer is validated per instance by the Coq-verified certificate checker)',
